@@ -20,7 +20,7 @@ CHECKS = {
             "Problem.split(k, idx) (every idx, permuted layouts) under the controlled scheduler",
             BASE_TRUST, "3 C01, 2.5, 2.8", "SolveMC"),
     "C02": (MC, SOLVE_T + "; oracle = brute-force solution multiset; all posting permutations",
-            "find_all of every problem of U (constructor and add_variable(s) spellings) under every configuration and posting order is "
+            "find_all of every problem of U (constructor and add_variable(s) spellings; solve(), find_all() and solve_all(callback) entry points) under every configuration and posting order is "
             "compared as a multiset with an independent enumeration of the cartesian product", BASE_TRUST, "3 C02, 2.5, 2.8", "SolveMC"),
     "C03": (MC, SOLVE_T + "; oracle = brute-force optimum + restart-state invariant + step budgets",
             "minimize/maximize of every variable of every problem of U under every configuration; the restart history is observed "
@@ -101,7 +101,7 @@ CHECKS["C16"] = (MC, "PropMC + SolveMC under bounds monitors: IndexError in inte
 CHECKS["C19"] = (EXP, "exhaustive enumeration of a finite capacity grid (stack heights x depths x heuristics x modes, sizes around 8/16-bit limits) in sub-processes",
                  "each grid point runs interpreted, compiled and compiled with bounds checking; accepted outcomes are a deliberate error "
                  "or exactly the reference result with no out-of-range access; crash, hang, wrong result, IndexError are violations; sizes: "
-                 "propagators, variables, slots and parameters (also made of arity-1 / one-parameter propagators), shared domains with explicit decision domains, views",
+                 "propagators, variables, slots and parameters (also made of arity-1 / one-parameter propagators), shared domains with explicit decision domains, views; value ranges: domain bounds, view sums, offsets and parameters just inside and beyond int32",
                  "closed-form solution set of the chain model; sub-process isolation; time budgets per point", "3 C19", "CapacityMC")
 CHECKS["C20"] = (EXP, "exhaustive enumeration of a finite grid of shipped models x instances x symmetry breaking x configurations x processes; definition-level validators",
                  "every solution of every case is validated against the problem definition, counts and optima against literature / brute "
